@@ -1,0 +1,21 @@
+//go:build verif
+
+package base58
+
+// Contracts for the verif build tag (comment-only; see /verif/DESIGN.md).
+
+//@ prop C18
+
+//@ spec b58dec(s seq) seq
+//@ spec b58ok(s seq) bool
+//@ spec cksum(s seq) seq
+
+//@ func CheckDecode
+//@ ensures[err] err != nil ==> b == nil
+//@ ensures[frame] err == nil ==> b58ok(s) && len(b58dec(s)) >= 5 && len(b) == len(b58dec(s)) - 4
+//@ ensures[payload] err == nil ==> forall(i, 0, len(b), b[i] == b58dec(s)[i])
+//@ ensures[checksum] err == nil ==> string(sub(b58dec(s), len(b), len(b)+4)) == cksum(sub(b58dec(s), 0, len(b)))
+
+//@ exec-import mrb58 github.com/mr-tron/base58
+//@ exec b58dec func(s string) string { b, _ := mrb58.Decode(s); return string(b) }
+//@ exec b58ok func(s string) bool { _, err := mrb58.Decode(s); return err == nil }
